@@ -106,6 +106,7 @@ class RamNRun:
             self._register_id(sid_of(x))
         self.lock_index = {}
         self.locks_seen = []
+        self.appear = [sid_of(x) for x in range(len(ids))]   # ids in the order they first showed up in a table
         # --- rebind what the session module looks up ---------------------------------------------
         self.saved_mod = {k: sessions.__dict__.get(k, _MISSING) for k in ('threading', 'datetime', 'os', 'time')}
         sessions.threading = S.Shim(self.sched)
@@ -118,9 +119,21 @@ class RamNRun:
             self.cls.locks = S.InstrDict(self.sched, 'locks')
         else:
             self.cls = sessions.MemcachedSession
-            self.saved_cls = (self.cls.__dict__.get('cache', _MISSING), self.cls.locks, self.cls.mc_lock)
+            self.saved_cls = (self.cls.__dict__.get('cache', _MISSING), self.cls.locks, self.cls.mc_lock,
+                              self.cls.__dict__.get('servers', _MISSING))
             self.mc = FakeMemcacheModule(self)
-            self.cls.cache = self.mc.Client(['fake:0'])
+            # what sessions.init does for this storage class: `MemcachedSession.setup()` imports `memcache`
+            # and makes the client; the harness puts its fake module where the import finds it
+            import sys as _sys
+            saved_mod = _sys.modules.get('memcache', _MISSING)
+            _sys.modules['memcache'] = self.mc
+            try:
+                self.cls.setup(servers=['fake:0'])
+            finally:
+                if saved_mod is _MISSING:
+                    _sys.modules.pop('memcache', None)
+                else:
+                    _sys.modules['memcache'] = saved_mod
             self.cls.locks = S.InstrDict(self.sched, 'locks')
             self.cls.mc_lock = S.InstrRLock(self.sched)    # protects the client, not a session: scheduled, not observed
         for x, (c, tbl) in enumerate(ids):
@@ -141,6 +154,7 @@ class RamNRun:
         self.orphan_acquire = False
         self.foreign_pop = False
         self.sweeper_orphan_acquire = False
+        self.livelock = []
         self.errors = {}
         self.sweeps = [0] * nsw
         self.regen_trace = []           # (thread, old id, new id, old lock owner after, new lock owner after)
@@ -172,6 +186,11 @@ class RamNRun:
         if sid not in self.idnum:
             self.idnum[sid] = len(self.idlist)
             self.idlist.append(sid)
+
+    def _note_appearances(self):
+        for sid in self._stored_ids() + list(dict.keys(self.cls.locks)):
+            if sid not in self.appear:
+                self.appear.append(sid)
 
     def _index_locks(self):
         for sid in list(dict.keys(self.cls.locks)):
@@ -289,7 +308,7 @@ class RamNRun:
             t = 0 if k.startswith('cache.') else 1
             if op[1] is None:
                 return '%d.0' % t
-            return '%d.%d' % (t, self.idnum[op[1]] + 1) if op[1] in self.idnum else '-'
+            return '%d.%d' % (t, self.appear.index(op[1]) + 1 if op[1] in self.appear else 9999)
         return '-'
 
     def step(self, tok):
@@ -316,6 +335,7 @@ class RamNRun:
         lab = self.label(op)
         sched.step(name)
         self._discover_ids()
+        self._note_appearances()
         self._index_locks()
         if op is not None:
             self._frame_check(name, op, before)
@@ -353,12 +373,12 @@ class RamNRun:
 
     def observation(self):
         rows = []
-        for sid in self.idlist:
+        for idx, sid in enumerate(self.appear):      # an id is named by when it first showed up in a table
             c = self._cache_row(sid)
             l = dict.get(self.cls.locks, sid)
             if c is None and l is None:
                 continue
-            rows.append([self.idnum[sid]] + ([1, c[0], c[1]] if c is not None else [0])
+            rows.append([idx] + ([1, c[0], c[1]] if c is not None else [0])
                         + [self.lock_index[l] + 1 if l is not None else 0])
         out = [len(rows)]
         for r in rows:
@@ -399,32 +419,34 @@ class RamNRun:
 
     def finish(self, trace=None):
         """Let every sweeper end its sweep and every request thread that can still run finish.
-        Returns the tokens executed."""
+        Returns the tokens executed.  An actor that keeps taking turns without ever finishing is recorded
+        as a livelock of the code under test (an observation for the oracle, not a harness error)."""
         extra = []
-        guard = 0
 
         def do(tok):
-            nonlocal guard
             lab = self.step(tok)
             extra.append(tok)
             if trace is not None:
                 trace.append((self.observation(), lab))
-            guard += 1
-            if guard > 800:
-                raise common.HarnessError('threads do not terminate')
+
+        def drive(tok, cond, limit):
+            n = 0
+            while cond():
+                if n >= limit:
+                    if tok not in self.livelock:
+                        self.livelock.append(tok)
+                    return False
+                do(tok)
+                n += 1
+            return n > 0
         for k in range(self.nsw):
-            g = 0
-            while not self.sweeper_idle(k) and self.sched.enabled('S%d' % k):
-                do('S%d' % k)
-                g += 1
-                if g > 60 + 40 * len(self.idlist):
-                    raise common.HarnessError('sweep does not terminate')
+            drive('S%d' % k, lambda k=k: not self.sweeper_idle(k) and self.sched.enabled('S%d' % k),
+                  60 + 40 * len(self.idlist))
         while True:
             progressed = False
             for i in range(self.n):
-                while self.sched.enabled('r%d' % i):
-                    do(str(i))
-                    progressed = True
+                if str(i) not in self.livelock:
+                    progressed |= bool(drive(str(i), lambda i=i: self.sched.enabled('r%d' % i), 300))
             if not progressed:
                 break
         return extra
@@ -443,7 +465,7 @@ class RamNRun:
                 'unfinished': [r for r in reqs if not sched.done(r)],
                 'results': {r: (sched.threads[r].result if sched.done(r) else None) for r in reqs},
                 'counters': counters, 'orphan_acquire': self.orphan_acquire, 'foreign_pop': self.foreign_pop,
-                'sweeper_orphan_acquire': self.sweeper_orphan_acquire,
+                'sweeper_orphan_acquire': self.sweeper_orphan_acquire, 'livelock': list(self.livelock),
                 'frame': list(self.frame_violations),
                 'regen': [(n, self.idnum.get(o, o), self.idnum.get(w, w), str(oo), str(wo))
                           for n, o, w, oo, wo in self.regen_trace],
@@ -462,14 +484,15 @@ class RamNRun:
             if self.backend == 'ram':
                 self.cls.cache, self.cls.locks = self.saved_cls
             else:
-                c, self.cls.locks, self.cls.mc_lock = self.saved_cls
-                if c is _MISSING:
-                    try:
-                        del self.cls.cache
-                    except AttributeError:
-                        pass
-                else:
-                    self.cls.cache = c
+                c, self.cls.locks, self.cls.mc_lock, srv = self.saved_cls
+                for name, v in (('cache', c), ('servers', srv)):
+                    if v is _MISSING:
+                        try:
+                            delattr(self.cls, name)
+                        except AttributeError:
+                            pass
+                    else:
+                        setattr(self.cls, name, v)
 
 
 _MISSING = object()
